@@ -19,10 +19,10 @@ pub fn prop() -> Prop {
         assumptions: vec!["coordinates stay within +-200 (sub-check far_offsets: offsets to +-30000, the i16 scale of scrolled-out content) so no arithmetic overflow can interfere"],
         subs: vec![
             Sub::tape("items", 300, 150_000, 7_500_000, |d, cx| run_items(d, cx)),
-            Sub::tape("thick_joins", 40, 100_000, 5_000_000, thick_joins),
-            Sub::tape("large", 40, 3_000, 150_000, large),
-            Sub::tape("primitives_queries", 30, 100_000, 5_000_000, queries).with_fp(),
-            Sub::tape("real_arithmetic", 40, 60_000, 3_000_000, real_arithmetic).with_fp(),
+            Sub::tape("thick_joins", 64, 100_000, 5_000_000, thick_joins),
+            Sub::tape("large", 64, 3_000, 150_000, large),
+            Sub::tape("primitives_queries", 48, 100_000, 5_000_000, queries).with_fp(),
+            Sub::tape("real_arithmetic", 64, 60_000, 3_000_000, real_arithmetic).with_fp(),
             Sub::tape("far_offsets", 300, 60_000, 3_000_000, far_offsets).with_fp(),
         ],
     }
